@@ -3986,6 +3986,8 @@ impl SctpInner {
         };
 
         let payload = open.marshal();
+        #[cfg(rustrtc_verif)]
+        crate::verif_hooks::sctp::gate(self.local_port, "dcep_open_before_queue").await;
         let queued = self
             .send_data_raw(dc.id, DATA_CHANNEL_PPID_DCEP, &payload)
             .await;
